@@ -129,6 +129,13 @@ theorem http_reply_whole (buf body : Http.S) (hok : Http.HdrOk buf) (hd : (Http.
     omega
   · rw [h]
 
+/-- The loop of `write_response` that grows the buffer (as it stands in connection.rs, regenerated on
+every run) has exactly one way out besides the body writer's own error - `break body_len` once the
+body fits - and doubles the buffer otherwise: there is no size at which it gives up, which is what
+`Http.writeResponse` (total, no failure outcome) models. -/
+theorem http_growth_never_refuses :
+    Generated.Http.growLoopOtherExits = 0 ∧ Generated.Http.growLoopBreaks = 1 ∧ 2 ≤ Generated.Http.growFactor := by decide
+
 /-! ### non-vacuity -/
 example : acceptsCfg true 30 70 = true := by decide
 example : replyLen (.announce true) 112 0 = 2036 ∧ sendBufLen true = 2048 := by decide
